@@ -37,6 +37,16 @@ CLAIMED["C08"] = ("E-round", "rounding_integer division (and _impl::divide<Tag>)
 CLAIMED["C09"] = ("E-round", "Generated narrowing conversions under the four rounding tags: scaled_integer -> coarser scaled_integer (convert<> and the rounding_integer-rep route) judged online on 256-bit integers, float/double/long double -> integer and scaled_integer "
                   "(convert<> and constructors) logged and judged offline with exact rationals; sources include every tie of the destination lattice with float neighbours, limits and values where +0.5 is inexact.", "DESIGN.md §4 C09",
                   "sanitizer-instrumented execution judged online by an exact 256-bit oracle and offline by a python Fraction checker over the recorded event log")
+CLAIMED["C13"] = ("E-text", "Every to_chars call (integer types incl. 128-bit, wide, elastic, overflow wrappers in six bases; scaled_integer over 8..64-bit reps, exponents in [-70,70], radix 2/3/8/10) runs inside a heap arena with ASan-poisoned, canaried surroundings "
+                  "for every buffer length 0..capacity+2; the log is judged offline: no write/read outside the buffer, result pointer/errc contract, no abort/trap/hang (H3 tick budget), and the fixed-capacity variants always succeed; also in a -DNDEBUG ASan build.",
+                  "DESIGN.md §4 C13", "ASan poisoning + canaries around caller buffers, UBSan traps, CNL abort hook and loop-tick hook; offline checker over the recorded call log")
+CLAIMED["C14"] = ("E-text", "The texts produced by the C13 calls are parsed by an independent grammar and compared exactly (python Fractions) with the value: canonical numerals for integers in every base; sign, never-exceeds, one-unit(+significand-limit) error bound and the "
+                  "18-digit exactness clause for scaled_integer; agreement of to_string / to_chars_static / operator<< with to_chars.", "DESIGN.md §4 C14", "offline exact-rational checker over the recorded to_chars event log")
+CLAIMED["C16"] = ("E-fraction", "fraction + - * /, unary, six comparisons, reduce, canonical, std::hash and conversion to double against exact rationals: all pairs with components in [-12,12] (every sign pattern), thinned boundary lattices for wider types, all 2^16 fraction<int8_t> for the unary functions; "
+                  "hash checked by grouping fractions by exact canonical value.", "DESIGN.md §4 C16", None)
+CLAIMED["C17"] = ("E-fraction", "fraction<T>(x) / make_fraction<T>(x) for int16/32/64 x float/double/long double over an exponent x mantissa lattice, small ratios, decimal fractions, near-limit and tiny values and seeded random inputs, each construction logged with its mediant-iteration count (hook H3) "
+                  "and judged offline against the full statement; inputs are split by a predicate on x into an easy class (judged strictly) and a hard class whose deviations are the recorded finding KF-C17-01.", "DESIGN.md §4 C17",
+                  "logical step counter (tick hook) + sanitizer traps + offline exact-rational checker over the recorded event log")
 PLANNED = {}
 
 
